@@ -30,4 +30,11 @@ def run(ctx):
     ctx.guard("trailer", "finalize_raw", lambda: aead.check_finalize_raw(ctx, P))
     ctx.guard("mac-order", "dec", lambda: aead.check_mac_sees_ciphertext(ctx, P, "dec"))
     ctx.guard("oneshot", "decrypt", lambda: aead.check_oneshot(ctx, P, "decrypt"))
-    ctx.not_decided += ["Poly1305 tag arithmetic (C05)", "the branch-free zero test `(x | -x) >> 63` as a Boolean function (C18, outside the static family)"]
+    # the tag is a Poly1305 tag over a ChaCha keystream: the MAC's structural / bounds rules and the cipher engine's
+    # block function (value graphs) are shared rule instances with C05 and C03
+    from . import C05 as _C05, arx as _arx
+    _C05.check_all(ctx, P)
+    _got = []
+    ctx.guard("block-eq", "chacha-sse2", lambda: _got.append(_arx.check_engines(ctx, {"K0": P}, families=("chacha",))))
+    ctx.check(_got == [16], "floor", "block-eq", "16 pieces of the ChaCha engine of the default build compared with the specification", "only %s ChaCha engine pieces compared" % _got, key="floor:block-eq")
+    ctx.not_decided += ["the Poly1305 tag as a number (C05)", "the branch-free zero test `(x | -x) >> 63` as a Boolean function (C18, outside the static family)"]
